@@ -192,7 +192,9 @@ def requested_vs_actual(cfg, fs, dev_blocks):
     if "-I" in o and fs.inode_size != int(o[o.index("-I") + 1]):
         bad.append("inode size %d, requested %s" % (fs.inode_size, o[o.index("-I") + 1]))
     if "-N" in o and fs.inodes_count < int(o[o.index("-N") + 1]):
-        bad.append("inode count %d below the requested %s" % (fs.inodes_count, o[o.index("-N") + 1]))
+        short = int(o[o.index("-N") + 1]) - fs.inodes_count
+        bad.append("inode count %d below the requested %s%s" % (fs.inodes_count, o[o.index("-N") + 1],
+                   " (rounding to a multiple of 8 per group)" if short < 8 * fs.groups_count and fs.bs // fs.inode_size % 8 else ""))
     if "-g" in o and fs.blocks_per_group != int(o[o.index("-g") + 1]) and not fs.ro_compat & RO_BIGALLOC:
         bad.append("blocks per group %d, requested %s" % (fs.blocks_per_group, o[o.index("-g") + 1]))
     if "-L" in o and fs.sb_raw[0x78:0x88].rstrip(b"\0").decode() != o[o.index("-L") + 1]:
@@ -395,10 +397,12 @@ def run(res, replay=None):
     def sig(recipe, problems):
         if len(problems) == 1 and "(mmp-block-only)" in problems[0]:
             return "c07:mmp-block-carries-wall-clock-time"
+        if len(problems) == 1 and "(rounding to a multiple of 8 per group)" in problems[0]:
+            return "c07:inode-count-rounded-below-request"
         if "quota" in recipe["cmd"] and " -d " in recipe["cmd"]:
             return "c07:quota-with-populate"
         return "c07:" + hashlib.sha256(recipe["cmd"].encode()).hexdigest()[:12]
-    bad.sort(key=lambda b: 1 if sig(b[0], b[1]) == "c07:mmp-block-carries-wall-clock-time" else 0)
+    bad.sort(key=lambda b: 1 if sig(b[0], b[1]) in ("c07:mmp-block-carries-wall-clock-time", "c07:inode-count-rounded-below-request") else 0)
     for recipe, problems, stat in bad[:3]:
         res.violation("oracle", {"recipe": recipe, "problems": problems[:6], "stat": stat}, signature=sig(recipe, problems))
     if not pr["ok"] and not bad and not sweep_bad:
